@@ -1587,6 +1587,14 @@ where
     ) -> Result<()> {
         match state {
             State::Suspect => {
+                // We're down already (we left the cluster or were declared
+                // down and couldn't rejoin): refuting the suspicion would
+                // keep this dead identity alive in the eyes of whoever hasn't
+                // learned about it yet, so we let the suspicion run its course
+                if self.connection_state == ConnectionState::Undead {
+                    return Ok(());
+                }
+
                 let increase_incarnation = match self.incarnation.cmp(&incarnation) {
                     // This can happen when a member received an update about
                     // someone else suspecting us but hasn't received our
